@@ -175,6 +175,35 @@ Proof.
   exists x. split; [exact Hx|]. intros y Hy. apply (Phi_injective mu sigma); [exact Hs | lra].
 Qed.
 
+(* an exact inverse exists (informatively, from the intermediate value theorem): the hypothesis
+   [q_inverts] of the quantile lemmas below is satisfiable for every mu and sigma > 0 *)
+Lemma Phi_quantile_sig : forall mu sigma p, 0 < sigma -> 0 < p < 1 -> { x : R | Phi mu sigma x = p }.
+Proof.
+  intros mu sigma p Hs [Hp0 Hp1].
+  set (e := Rmin p (1 - p) / 2).
+  assert (He : 0 < e) by (unfold e; apply Rdiv_lt_0_compat; [apply Rmin_pos; lra | lra]).
+  assert (He1 : e < p /\ e < 1 - p).
+  { unfold e. generalize (Rmin_l p (1 - p)) (Rmin_r p (1 - p)) (Rmin_pos p (1 - p) Hp0 ltac:(lra)). lra. }
+  set (a := mu - sigma * (1 + 2 / e) - 1). set (b := mu + sigma * (1 + 2 / e) + 1).
+  destruct (Phi_lower_small mu sigma e a Hs He ltac:(unfold a; lra)) as [A0 A1].
+  destruct (Phi_upper_small mu sigma e b Hs He ltac:(unfold b; lra)) as [B0 B1].
+  destruct (IVT_gen (Phi mu sigma) a b p (Phi_continuity mu sigma Hs)) as [x [_ Hx]].
+  { rewrite Rmin_left; [|lra]. rewrite Rmax_right; lra. }
+  exists x. exact Hx.
+Qed.
+
+Lemma quantile_hyp_satisfiable : forall mu sigma, 0 < sigma ->
+  exists q : R -> R, forall p, 0 < p < 1 -> Phi mu sigma (q p) = p.
+Proof.
+  intros mu sigma Hs.
+  exists (fun p => match Rlt_dec 0 p, Rlt_dec p 1 with
+                   | left a, left b => proj1_sig (Phi_quantile_sig mu sigma p Hs (conj a b))
+                   | _, _ => 0 end).
+  intros p [H0 H1]. destruct (Rlt_dec 0 p) as [a | a]; [|contradiction].
+  destruct (Rlt_dec p 1) as [b | b]; [|contradiction].
+  apply proj2_sig.
+Qed.
+
 (* Specification of InvCDF on (0,1): ANY function q with Phi (q p) = p ... *)
 Section Quantile.
 Variables (mu sigma : R) (q : R -> R).
